@@ -363,7 +363,14 @@ class SchedLock(object):
         if s is None or s.me() is None:
             if w is not None:
                 w.want(None, self)
-            got = self._inner.acquire(blocking, timeout)
+            if blocking and timeout == -1:
+                # never wait for ever outside the scheduled threads (set-up phase, oracle): a
+                # lock that cannot be had there is a self-deadlock of the code under test
+                got = self._inner.acquire(True, 15.0)
+                if not got:
+                    raise RuntimeError('%s cannot be acquired in the main thread (held and never released)' % self._name)
+            else:
+                got = self._inner.acquire(blocking, timeout)
             if got and w is not None:
                 w.got(None, self)
             return got
